@@ -32,7 +32,8 @@ def mem_alphabet():
         k += 1
     A += [("lw", 5, 3, 0, 0), ("sw", 0, 3, 6, 0), ("lw", 6, 3, 0, 64), ("sw", 0, 3, 5, 128), ("sb", 0, 3, 6, 65), ("lbu", 7, 3, 0, 129),
           ("addi", 5, 5, 0, 1), ("addi", 17, 0, 0, 4), ("add", 10, 3, 0, 0), ("ecall", 0, 0, 0, 0),
-          ("beq", 0, 0, 0, 8), ("jal", 28, 0, 0, 8)]  # wrong-path loads/stores behind a taken branch / jump
+          ("beq", 0, 0, 0, 8), ("jal", 28, 0, 0, 8),  # wrong-path loads/stores behind a taken branch / jump
+          ("sw", 0, 0, 6, -4), ("lw", 7, 0, 0, -4)]   # the last word of the address space through a negative effective address
     return A
 
 
